@@ -52,33 +52,33 @@ def _base(ep, rng):
         sp = rng.choice(["i:1", "i:1", "i:2", "i:3"]) if strategy != "drift" else "i:1"
         wl = rng.choice(["none", "i:%d" % rng.randrange(4, 9)])
         return {"ep": ep, "y": "ok:%d" % n, "X": rng.choice(["none", "ok"]), "fh": rng.choice(["none", fh]), "strategy": strategy,
-                "sp": sp, "wl": wl, "origin": rng.choice([0, 5])}
+                "sp": sp, "wl": wl, "origin": rng.choice([0, 4, 5])}
     if ep == "naive_predict":
         return {"ep": ep, "n": n, "fitfh": rng.choice(["none", fh]), "fh": fh, "origin": rng.choice([0, 5])}
     if ep == "naive_update":
-        return {"ep": ep, "n": n, "y": "ok:%d" % rng.randrange(1, 6), "X": "none"}
+        return {"ep": ep, "n": n, "y": "ok:%d" % rng.randrange(2, 6), "X": rng.choice(["none", "ok"])}
     if ep == "required":
         return {"ep": ep, "n": n, "phase": rng.choice(["fit", "predict"]), "fitfh": fh, "fh": fh}
     if ep == "split":
         kind = rng.choice(["sliding", "expanding", "single", "cutoff"])
         return {"ep": ep, "kind": kind, "y": "ok:%d" % n, "fh": fh, "wl": "i:%d" % rng.randrange(1, 5), "step": "i:%d" % rng.randrange(1, 3),
-                "iw": "none", "sww": True, "cutoffs": "ok", "origin": rng.choice([0, 3])}
+                "iw": "none", "sww": True, "cutoffs": "ok", "origin": rng.choice([0, 4, 5])}
     if ep == "tts":
         mode = rng.choice(["fh", "size"])
         return {"ep": ep, "y": "ok:%d" % n, "X": rng.choice(["none", "ok"]), "fh": fh if mode == "fh" else "none",
-                "test": "none" if mode == "fh" else rng.choice(["none", "i:3"]), "train": "none", "origin": 0}
+                "test": "none" if mode == "fh" else rng.choice(["none", "i:3"]), "train": "none", "origin": rng.choice([0, 4, 5])}
     if ep == "evaluate":
-        return {"ep": ep, "y": "ok:%d" % n, "X": rng.choice(["none", "ok"]), "cv": "ok", "scoring": rng.choice(["none", "ok"]),
+        return {"origin": rng.choice([0, 4, 5]), "ep": ep, "y": "ok:%d" % n, "X": rng.choice(["none", "ok"]), "cv": "ok", "scoring": rng.choice(["none", "ok"]),
                 "strategy": rng.choice(["refit", "update"])}
     if ep == "gridsearch":
-        return {"ep": ep, "y": "ok:%d" % n, "X": "none", "cv": "ok", "scoring": rng.choice(["none", "ok"]), "grid": "ok", "fh": rng.choice(["none", "r:1"])}
+        return {"origin": rng.choice([0, 4, 5]), "ep": ep, "y": "ok:%d" % n, "X": "none", "cv": "ok", "scoring": rng.choice(["none", "ok"]), "grid": "ok", "fh": rng.choice(["none", "r:1"])}
     if ep == "reduce":
         st = rng.choice(["direct", "recursive", "multioutput", "dirrec"])
-        return {"ep": ep, "y": "ok:%d" % n, "X": "none" if st == "dirrec" else rng.choice(["none", "ok"]), "fh": fh, "strategy": st,
+        return {"origin": rng.choice([0, 4, 5]), "ep": ep, "y": "ok:%d" % n, "X": "none" if st == "dirrec" else rng.choice(["none", "ok"]), "fh": fh, "strategy": st,
                 "wl": "i:%d" % rng.randrange(1, 5), "scitype": rng.choice(["infer", "tabular-regressor"])}
     if ep == "composite":
         kind = rng.choice(["ensemble", "pipeline", "multiplexer", "stacking"])
-        return {"ep": ep, "kind": kind, "shape": "ok", "y": "ok:%d" % n, "fh": fh, "aggfunc": rng.choice(["mean", "median", "min", "max"]), "predict": False}
+        return {"origin": rng.choice([0, 4, 5]), "ep": ep, "kind": kind, "shape": "ok", "y": "ok:%d" % n, "fh": fh, "aggfunc": rng.choice(["mean", "median", "min", "max"]), "predict": False}
     if ep == "fh":
         return {"ep": ep, "via": rng.choice(["ctor", "check"]), "fh": fh, "rel": "T", "enf": rng.random() < 0.5}
     raise ValueError(ep)
